@@ -39,6 +39,11 @@ type webCfg struct {
 
 var webCfgs = []webCfg{{7, 0, []int{0, 5}}, {9, 5, []int{0, 7}}}
 
+// client side: websocket (DialTimeout, client KeepaliveTime) and ClientConn (Timeout, IdleConnTimeout), in half slots
+var cliWSKA2s = []int{0, 7}
+var wsCliCfgs = [][2]int{{5, 0}, {0, 0}, {5, 7}, {0, 7}}
+var httpCliCfgs = [][2]int{{5, 0}, {0, 0}, {5, 7}, {0, 7}, {7, 3}}
+
 func cfgOf(p *plan) int {
 	for i, c := range webCfgs {
 		if c.ka2 == p.KA2 && c.wt2 == p.WT2 {
@@ -49,14 +54,17 @@ func cfgOf(p *plan) int {
 }
 
 // runBatch: fresh engines, all plans concurrently, engines stopped afterwards
-func runBatch(rd *round, plans []*plan) []*observation {
+func runBatch(rd *round, plans []*plan, probe *map[string]interface{}) []*observation {
 	out := make([]*observation, len(plans))
-	needConn := false
+	needConn, needCli := false, probe != nil
 	needWeb := make([]bool, len(webCfgs))
 	for _, p := range plans {
-		if p.Part == "conn" {
+		switch p.Part {
+		case "conn":
 			needConn = true
-		} else {
+		case "wscli", "httpcli":
+			needCli = true
+		default:
 			needWeb[cfgOf(p)] = true
 		}
 	}
@@ -83,16 +91,35 @@ func runBatch(rd *round, plans []*plan) []*observation {
 			defer wenv[i].stop()
 		}
 	}
+	var clienv *cliEnv
+	if needCli {
+		if clienv, err = startCliEnv(rd, cliWSKA2s); err != nil {
+			return fail("client engines start: " + err.Error())
+		}
+		defer clienv.stop()
+	}
 	var wg sync.WaitGroup
+	if probe != nil {
+		wg.Add(1)
+		go func() {
+			defer wg.Done()
+			*probe = probePipelined(rd, clienv)
+		}()
+	}
 	for i, p := range plans {
 		wg.Add(1)
 		// spread the histories over three grid units so that they do not all wake up at the same instants
 		phase := time.Duration((uint64(p.ID)*2654435761+uint64(i)*40503)%1000) * 3 * rd.unit / 1000
 		go func(i int, p *plan) {
 			defer wg.Done()
-			if p.Part == "conn" {
+			switch p.Part {
+			case "conn":
 				out[i] = runConn(rd, cenv, p, phase)
-			} else {
+			case "wscli":
+				out[i] = runWSCli(rd, clienv, p, phase)
+			case "httpcli":
+				out[i] = runHTTPCli(rd, clienv, p, phase)
+			default:
 				out[i] = runWeb(rd, wenv[cfgOf(p)], p, phase)
 			}
 		}(i, p)
@@ -103,18 +130,18 @@ func runBatch(rd *round, plans []*plan) []*observation {
 
 func main() {
 	seed := flag.Int64("seed", 1, "")
-	n := flag.Int("n", 300, "number of connection histories (plus n/5 http and n/5 websocket histories)")
+	n := flag.Int("n", 300, "number of connection histories (plus n/5 each of http, websocket, websocket-client and http-client histories)")
 	model := flag.String("model", "", "path of the extracted model")
 	out := flag.String("out", "-", "")
 	unitMS := flag.Int("unit", 80, "grid unit of the first round, milliseconds")
 	marginMS := flag.Int("margin", 500, "lateness margin of the first round, milliseconds")
-	batch := flag.Int("batch", 420, "histories run concurrently")
+	batch := flag.Int("batch", 540, "histories run concurrently")
 	debug := flag.Bool("debug", false, "print the problems of every round")
 	flag.Parse()
 	logging.SetLevel(logging.LevelNone)
 	rep := hx.NewReport("deadline", *seed)
 	rep.Rule = "histories on a time grid (operations at whole slots, expiries at half slots): 30 named scenarios, then random sequences of SetDeadline/SetReadDeadline/SetWriteDeadline (future, past, zero), small Write/Writev, big Write to a peer that does not read, peer drains, Close; " +
-		"http: connect + requests before/after the keep-alive expiry (with and without WriteTimeout); websocket: upgrade with KeepaliveTime 0 / >0, messages and pings; non-trivial = at least one deadline is set; distinct = distinct plans"
+		"http: connect + requests before/after the keep-alive expiry (with and without WriteTimeout); websocket: upgrade with KeepaliveTime 0 / >0, messages and pings; websocket client: Dial with DialTimeout 0 / >0, client KeepaliveTime 0 / >0, then silent / messages and pings from the server / messages to the server; http client: ClientConn with Timeout and IdleConnTimeout 0 / >0, answered requests, idle periods, a request that is never answered; every third connection history runs on a connection dialed with DialAsyncTimeout; non-trivial = at least one deadline is set; distinct = distinct plans"
 
 	var m *hx.Model
 	if *model != "" {
@@ -139,6 +166,16 @@ func main() {
 		c := webCfgs[i%len(webCfgs)]
 		plans = append(plans, genWS(rand.New(rand.NewSource(s)), *n+nweb+i, s, c.ka2, c.wt2, c.wska2s[(i/len(webCfgs))%len(c.wska2s)]))
 	}
+	for i := 0; i < nweb; i++ {
+		s := *seed*15485863 + int64(i)
+		c := wsCliCfgs[i%len(wsCliCfgs)]
+		plans = append(plans, genWSCli(rand.New(rand.NewSource(s)), *n+2*nweb+i, s, c[0], c[1]))
+	}
+	for i := 0; i < nweb; i++ {
+		s := *seed*32452843 + int64(i)
+		c := httpCliCfgs[i%len(httpCliCfgs)]
+		plans = append(plans, genHTTPCli(rand.New(rand.NewSource(s)), *n+3*nweb+i, s, c[0], c[1]))
+	}
 	// interleave the parts so that every batch has all of them
 	sort.SliceStable(plans, func(a, b int) bool { return plans[a].ID%(*batch) < plans[b].ID%(*batch) })
 
@@ -152,6 +189,7 @@ func main() {
 		return ps
 	}
 
+	var probeResult map[string]interface{}
 	final := map[int]*result{}
 	softRounds := map[int]int{} // rounds in which the history was late by more than the guard (but within the margin)
 	const maxRounds = 5
@@ -166,7 +204,11 @@ func main() {
 			if hi > len(todo) {
 				hi = len(todo)
 			}
-			obs := runBatch(rd, todo[lo:hi])
+			var probe *map[string]interface{}
+			if r == 0 && lo == 0 {
+				probe = &probeResult
+			}
+			obs := runBatch(rd, todo[lo:hi], probe)
 			for i, o := range obs {
 				p := todo[lo+i]
 				ps := evaluate(rd, p, o)
@@ -284,6 +326,9 @@ func main() {
 		}
 	}
 	rep.Extra["max_observed_fire_latency_us"] = maxLat
+	// two requests in flight on one ClientConn: what the code does is reported, not judged (C16 does not say which
+	// deadline applies to the second request)
+	rep.Extra["probe_pipelined_requests"] = probeResult
 	rep.Extra["unit_ms"] = *unitMS
 	rep.Extra["margin_ms"] = *marginMS
 	for part, t := range total {
